@@ -312,7 +312,73 @@ def t_regexgroups():
                     bad("E-regexgroups", (cre.pattern, ln), "secret group is None")
 
 
-for t in (t_md5, t_format, t_bidict, t_ipaddress, t_dropzeros, t_resub, t_strws, t_hex_passlib, t_os_dict, t_regexgroups):
+def t_juniper_trusted():
+    """the TRUSTED contracts on repository functions of the $9$ codec (their loops are not verified):
+    juniper_decrypt raises nothing but ValueError, whatever it accepts is VALID-shaped (J9Decodable => J9Valid);
+    what juniper_nonrandom_encrypt returns for a non-empty plaintext is VALID-shaped and decodable, and decodes to
+    the plaintext when its characters are in 0..255"""
+    TAGS.append("T-juniper")
+    from netconan.utils import juniper_secrets as js
+    alpha = "".join(js.NUM_ALPHA)
+    valid = re.compile(r"\$9\$[%s]{4,}\Z" % re.escape(alpha))
+    cands = ["", "$9$", "$9$abc", "$9$abcd", "$9$abcd\n", "$9$ab!d", "x$9$abcd", "$9$" + "Q" * 9]
+    for _ in range(300 if QUICK else 5000):
+        k = RNG.randrange(0, 14)
+        cands.append("$9$" + "".join(RNG.choice(alpha + "!\n ") if RNG.random() < 0.1 else RNG.choice(alpha) for _ in range(k)))
+    for c in cands:
+        ok()
+        try:
+            js.juniper_decrypt(c)
+            if not valid.match(c):
+                bad("T-juniper", c, "decrypt accepted a string that is not VALID-shaped")
+        except ValueError:
+            pass
+        except Exception as e:  # noqa
+            bad("T-juniper", c, "decrypt raised %s" % type(e).__name__)
+    salts = list(alpha[::7]) + [None, "", "_x", "é"]
+    for salt in salts:
+        for _ in range(20 if QUICK else 300):
+            n = RNG.randrange(1, 12)
+            hi = 256 if RNG.random() < 0.8 else 0x3000
+            p_ = "".join(chr(RNG.randrange(hi)) for _ in range(n))
+            ok()
+            try:
+                c = js.juniper_nonrandom_encrypt(p_, salt)
+            except Exception as e:  # noqa
+                if all(ord(ch) < 256 for ch in p_):
+                    bad("T-juniper", (p_, salt), "encrypt raised %s" % type(e).__name__)
+                continue
+            if not valid.match(c):
+                bad("T-juniper", (p_, salt), "encrypt result not VALID-shaped: %r" % c)
+                continue
+            try:
+                d_ = js.juniper_decrypt(c)
+            except Exception as e:  # noqa
+                bad("T-juniper", (p_, salt), "encrypt result not decodable: %s" % type(e).__name__)
+                continue
+            if all(ord(ch) < 256 for ch in p_) and d_ != p_:
+                bad("T-juniper", (p_, salt), "round trip differs")
+
+
+def t_default_regexes_trusted():
+    """TRUSTED: generate_default_sensitive_item_regexes returns groups of (compiled pattern, group number or None)"""
+    TAGS.append("T-default-regexes")
+    from netconan import sensitive_item_removal as sir
+    regs = sir.generate_default_sensitive_item_regexes()
+    ok()
+    if not isinstance(regs, list) or not regs:
+        bad("T-default-regexes", type(regs), "not a non-empty list")
+        return
+    for grp in regs:
+        for item in grp:
+            ok()
+            if not (isinstance(item, tuple) and len(item) == 2 and isinstance(item[0], re.Pattern)
+                    and (item[1] is None or (isinstance(item[1], int) and 0 <= item[1] <= item[0].groups))):
+                bad("T-default-regexes", item, "not a (pattern, group number) pair")
+
+
+for t in (t_md5, t_format, t_bidict, t_ipaddress, t_dropzeros, t_resub, t_strws, t_hex_passlib, t_os_dict, t_regexgroups,
+          t_juniper_trusted, t_default_regexes_trusted):
     try:
         t()
     except Exception as e:  # noqa
